@@ -186,8 +186,15 @@ def check_invoke_off(run, rng, quick):
                 parts.append("{{%s|%s}}" % (name, arg))
                 want.append(exp(name, arg))
         sep = rng.choice([" ", "", " and "])
-        cases.append(({"lib": LIB, "page": sep.join(parts), "opts": {"invoke": False}, "title": "Tt"},
-                      sep.join(want)))
+        c = {"lib": LIB, "page": sep.join(parts), "opts": {"invoke": False}, "title": "Tt"}
+        if rng.random() < 0.35:
+            # a context whose language edition has other names for #invoke: the switch is about the function, not its spelling
+            # (the call is emitted under the canonical name)
+            alias = rng.choice(["#invoque", "#aufrufen", "#invoke2"])
+            c["pf_aliases"] = {alias: "#invoke"}
+            c["page"] = c["page"].replace("{{#invoke:m|top|", "{{%s:m|top|" % alias).replace("{{#invoke:m|a|", "{{%s:m|a|" % alias)
+            c["lib"] = [[n, b.replace("{{#invoke:m|g}}", "{{%s:m|g}}" % alias), p] for n, b, p in LIB]
+        cases.append((c, sep.join(want)))
     res = lib.run_impl("expandlib", [c for c, _ in cases], shards=lib.NCPU)
     for (c, want), r in zip(cases, res):
         run.count(["invoke-off", c["page"], c["opts"]], c["page"].count("{{") >= 2, "invoke-off")
